@@ -10,6 +10,9 @@ mod fam_hist;
 mod fam_hasher;
 mod fam_c10;
 mod fam_c16;
+mod fam_c14;
+#[cfg(feature = "fast_verify")]
+mod fam_c15;
 
 fn main() {
     let args: Vec<String> = std::env::args().collect();
@@ -31,6 +34,9 @@ fn main() {
         "hasher" => fam_hasher::run(seed, thorough),
         "c10" => fam_c10::run(seed, thorough),
         "c16" => fam_c16::run(seed, thorough),
+        "c14" => fam_c14::run(seed, thorough),
+        #[cfg(feature = "fast_verify")]
+        "c15" => fam_c15::run(seed, thorough),
         other => {
             eprintln!("unknown family {}", other);
             std::process::exit(2);
